@@ -27,6 +27,7 @@ type PackStep struct {
 	Legacy     bool    `json:"legacy,omitempty"`
 	Src        string  `json:"src,omitempty"` // spelling; "" = <W>/src
 	Cwd        string  `json:"cwd,omitempty"` // W-relative directory to chdir into ("" = /)
+	PWD        string  `json:"pwd,omitempty"` // W-relative spelling of that directory put into $PWD (what a shell leaves behind after cd through a link; os.Getwd prefers it)
 	Unpack     bool    `json:"unpack,omitempty"`
 	Allow3     bool    `json:"allow3,omitempty"`      // three AllowSymlinkTarget options (spare slice capacity on the Packer)
 	SlowWriter bool    `json:"slow_writer,omitempty"` // every Write of the output writer is a scheduling point (sched build): another call can run while this one is in the middle of copying a file
@@ -65,6 +66,10 @@ func runPackStep(W string, st PackStep) string {
 		return "SETUP-ERROR chdir " + err.Error()
 	}
 	defer os.Chdir("/")
+	if st.PWD != "" {
+		os.Setenv("PWD", W+"/"+st.PWD) // not cleaned: "hop/.." is the directory above where hop leads
+		defer os.Unsetenv("PWD")
+	}
 	return packOnly(W, st)
 }
 
@@ -225,8 +230,10 @@ func RunC16(tier string) int {
 
 	// ---- part 1: spelling × cwd ----
 	{
-		type sp struct{ src, cwd string }
-		spellings := []sp{
+		type sp struct{ src, cwd, pwd string }
+		type sp0 struct{ src, cwd string }
+		var spellings []sp
+		for _, s := range []sp0{
 			{"<W>/src", ""}, {"<W>/src/", ""}, {"<W>/./src", ""}, {"<W>/x/../src", ""}, {"<W>/src/.", ""}, {"<W>//src", ""},
 			{"src", "."}, {"./src", "."}, {".", "src"}, {"../src", "x"}, {"./", "src"}, {"../src/", "x"},
 			{"<W>/lnabs", ""}, {"<W>/lnrel", ""}, {"<W>/ln2", ""}, {"<W>/ln3", ""}, {"<W>/x/lnup", ""},
@@ -234,7 +241,11 @@ func RunC16(tier string) int {
 			{"<W>/src", "src"}, {"<W>/src", "x"}, {"<W>/src", "."}, {"<W>/lnhop", ""}, {"lnhop", "."}, {"../lnhop", "x"},
 			// a link in front of the last component (anc -> .), and '..' after a link (hop -> x/deep)
 			{"<W>/anc/src", ""}, {"anc/src", "."}, {"<W>/anc/anc/src/", ""}, {"<W>/hop/../../src", ""}, {"hop/../../src", "."}, {"<W>/anc/lnrel", ""},
+		} {
+			spellings = append(spellings, sp{s.src, s.cwd, ""})
 		}
+		// relative spellings with $PWD naming the working directory by way of a link (a shell after `cd lnrel`)
+		spellings = append(spellings, sp{".", "src", "lnrel"}, sp{"./", "src", "anc/src"}, sp{"../src", "x", "hop/.."}, sp{"src", ".", "anc"}, sp{".", "src", "lnhop"}, sp{"lnrel", ".", "anc/anc"})
 		pool := core.NewPool(0)
 		type job struct {
 			tree string
@@ -258,7 +269,7 @@ func RunC16(tier string) int {
 			j := jobs[i]
 			st := j.opt
 			st.Nodes = append(append([]TNode{}, trees[j.tree]...), c16Around()...)
-			st.Src, st.Cwd = j.s.src, j.s.cwd
+			st.Src, st.Cwd, st.PWD = j.s.src, j.s.cwd, j.s.pwd
 			args[i] = PackSeqArg{Probes: []PackStep{st}}
 			return args[i]
 		}, func(i int, r core.Result) {
@@ -294,7 +305,7 @@ func RunC16(tier string) int {
 						sig += "-with-relative-target"
 					}
 				}
-				rep.Violation(sig, fmt.Sprintf("tree %s opts{ignore=%v deref=%v legacy=%v} source %q from cwd %q gives\n%s\nbut the clean absolute spelling gives\n%s", j.tree, j.opt.Ignore, j.opt.Deref, j.opt.Legacy, j.s.src, j.s.cwd, outs[i], b), "packseq", args[i])
+				rep.Violation(sig, fmt.Sprintf("tree %s opts{ignore=%v deref=%v legacy=%v} source %q from cwd %q ($PWD spelled %q) gives\n%s\nbut the clean absolute spelling gives\n%s", j.tree, j.opt.Ignore, j.opt.Deref, j.opt.Legacy, j.s.src, j.s.cwd, j.s.pwd, outs[i], b), "packseq", args[i])
 			} else {
 				rep.Outcome("spelling-equal")
 			}
@@ -413,7 +424,7 @@ func RunC16(tier string) int {
 	}
 	rep.Transitions = rep.Evaluations
 	rep.Extra["parts"] = parts
-	rep.Rule = "spelling×cwd: 6 trees × 4 option sets × every (source spelling, cwd) pair of the list (count in parts) incl. relative, through a link whose target has '..' after a symlinked directory, dotted, trailing slash, and by way of links with absolute/relative targets and chains; every output (decoded headers + bodies + Meta) must equal that of the clean absolute spelling. Histories: every sequence of <=2/3 calls from 8 operations (Packs incl. rule files starting with a negation, legacy Pack, dereferencing, an Unpack), each history in a FRESH worker process re-materialising trees at the same path, followed by 10 probe Packs whose outputs must equal those of a fresh process; as root and uid 65534 (where an unreadable .git/locked makes pruning observable). Schedules: see sched part."
+	rep.Rule = "spelling×cwd: 6 trees × 4 option sets × every (source spelling, cwd) pair of the list (count in parts) incl. relative (also with $PWD naming the working directory by way of a link), through a link whose target has '..' after a symlinked directory, dotted, trailing slash, and by way of links with absolute/relative targets and chains; every output (decoded headers + bodies + Meta) must equal that of the clean absolute spelling. Histories: every sequence of <=2/3 calls from 8 operations (Packs incl. rule files starting with a negation, legacy Pack, dereferencing, an Unpack), each history in a FRESH worker process re-materialising trees at the same path, followed by 10 probe Packs whose outputs must equal those of a fresh process; as root and uid 65534 (where an unreadable .git/locked makes pruning observable). Schedules: see sched part."
 	return rep.Finish()
 }
 
